@@ -582,10 +582,18 @@ func (g *Graph) GuardEdges(pred func(a Atom) bool) []EdgeRef {
 // GuardedBy reports whether site can only be reached through an edge on
 // which some fact accepted by pred holds.
 func (g *Graph) GuardedBy(site *V, pred func(a Atom) bool) bool {
-	return g.guardedBy(site, pred, 2)
+	return g.guardedBy(site, pred, 2, false)
 }
 
-func (g *Graph) guardedBy(site *V, pred func(a Atom) bool, depth int) bool {
+// GuardedBySampled is GuardedBy for facts that do not change during the
+// function (an option of the writer, a property of the file): a boolean
+// local defined once as the result of a call (useStream := opt.HasAny(f))
+// carries the facts of that call to the place where the local is tested.
+func (g *Graph) GuardedBySampled(site *V, pred func(a Atom) bool) bool {
+	return g.guardedBy(site, pred, 2, true)
+}
+
+func (g *Graph) guardedBy(site *V, pred func(a Atom) bool, depth int, sampled bool) bool {
 	es := g.GuardEdges(pred)
 	if len(es) > 0 && g.EdgeDominates(site, es...) {
 		return true
@@ -609,7 +617,7 @@ func (g *Graph) guardedBy(site *V, pred func(a Atom) bool, depth int) bool {
 				}
 				// a boolean local that names a condition (implicit := w0 == 0):
 				// the facts of that condition hold where the local is tested
-				if e, truth, isNamed := g.namedCondition(obj, k, eq); isNamed {
+				if e, truth, isNamed := g.namedCondition(obj, k, eq, sampled); isNamed {
 					for _, a2 := range ImpliedBy(e, truth) {
 						if pred(a2) {
 							return true
@@ -639,7 +647,7 @@ func (g *Graph) guardedBy(site *V, pred func(a Atom) bool, depth int) bool {
 						continue
 					}
 					any = true
-					if !g.guardedBy(d.v, pred, depth-1) {
+					if !g.guardedBy(d.v, pred, depth-1, sampled) {
 						all = false
 					}
 				}
@@ -656,7 +664,7 @@ func (g *Graph) guardedBy(site *V, pred func(a Atom) bool, depth int) bool {
 // right-hand side is a (non-constant) boolean expression over variables that
 // are themselves assigned only once; the test "obj == k" (eq) then means the
 // expression has the returned truth value.
-func (g *Graph) namedCondition(obj types.Object, k int64, eq bool) (ast.Expr, bool, bool) {
+func (g *Graph) namedCondition(obj types.Object, k int64, eq bool, calls bool) (ast.Expr, bool, bool) {
 	b, ok := obj.Type().Underlying().(*types.Basic)
 	if !ok || b.Kind() != types.Bool {
 		return nil, false, false
@@ -710,7 +718,7 @@ func (g *Graph) namedCondition(obj types.Object, k int64, eq bool) (ast.Expr, bo
 		switch x := m.(type) {
 		case *ast.CallExpr:
 			if tv, ok := g.Info.Types[x.Fun]; !(ok && tv.IsType()) {
-				if id, isID := ast.Unparen(x.Fun).(*ast.Ident); !isID || g.Info.Uses[id] == nil || g.Info.Uses[id].Pkg() != nil {
+				if id, isID := ast.Unparen(x.Fun).(*ast.Ident); !calls && (!isID || g.Info.Uses[id] == nil || g.Info.Uses[id].Pkg() != nil) {
 					stable = false // a call: its value is not a fact about variables
 				}
 			}
